@@ -3744,8 +3744,8 @@ def gen_Marshal(repo):
     L.append("def pyEngineUnits : List String := %s\n" % lean_list([lean_str(s) for s in _need(st, "LibRDEngine.setup units_system statements")]))
 
     # ---- read-back
-    L.append("structure ReadBack where\n  count : String\n  length : String\n  buffer : String\n  native : String\n  copyLoop : String\n"
-             "  labelSys : String\n  labelDim : String\n  convertTo : String\n  deriving DecidableEq, Repr\n")
+    L.append("structure ReadBack where\n  count : String\n  length : String\n  buffer : String\n  native : String\n  alloc : String\n"
+             "  copyLoop : String\n  labelSys : String\n  labelDim : String\n  convertTo : String\n  deriving DecidableEq, Repr\n")
     for tag, fname, var, cfn in (("Data", "_get_data", "data", "engineexport_get_trajectory"), ("TSample", "_get_t_sample", "t_sample", "engineexport_get_tsample")):
         fn = lre.func(fname, "LibRDEngine")
         asg = {}
@@ -3753,12 +3753,13 @@ def gen_Marshal(repo):
             if isinstance(s_, ast.Assign) and len(s_.targets) == 1 and isinstance(s_.targets[0], ast.Name):
                 asg[s_.targets[0].id] = n(s_.value)
         count = asg.get("n_sample", "")
-        length = asg.get("data_len", "n_sample") if fname == "_get_data" else "n_sample"
+        length = asg.get("data_len", "") if fname == "_get_data" else "n_sample"
+        lname = "data_len" if fname == "_get_data" else "n_sample"
         buf = asg.get(var + "_", "")
         nat = [n(s_.value) for s_ in fn.body if isinstance(s_, ast.Expr) and isinstance(s_.value, ast.Call)]
         loops = [n(s_) for s_ in fn.body if isinstance(s_, ast.For)]
         ret = [s_ for s_ in fn.body if isinstance(s_, ast.Return)]
-        if not (count and buf and len(nat) == 1 and len(loops) == 1 and len(ret) == 1 and var in asg):
+        if not (count and length and buf and len(nat) == 1 and len(loops) == 1 and len(ret) == 1 and var in asg):
             raise AnchorLost("librdengine.py:%s shape (count, buffer, one native call, one copy loop, one return)" % fname)
         r = ret[0].value
         # UnitArray(value=<var>, units=Units(sys=…, dim=…), check_value=False).convert(<target>)
@@ -3771,7 +3772,8 @@ def gen_Marshal(repo):
         ukw = {k.arg: n(k.value) for k in kw["units"].keywords}
         L.append("/-- `LibRDEngine.%s` -/" % fname)
         L.append("def py%s : ReadBack := ⟨%s⟩" % (tag, ", ".join(lean_str(x) for x in (
-            count, length + "|" + asg.get("data_len", ""), buf, nat[0], loops[0] + "|" + asg[var], ukw.get("sys", ""), ukw.get("dim", ""), n(r.args[0])))))
+            count, length, buf.replace(lname, "LEN"), nat[0], asg[var].replace(lname, "LEN"), loops[0].replace(lname, "LEN"),
+            ukw.get("sys", ""), ukw.get("dim", ""), n(r.args[0])))))
         m = re.search(r"extern\s+\"C\"\s+int\s+%s\s*\(([^)]*)\)" % cfn, eng)
         if not m:
             raise AnchorLost("engine.cpp:%s signature" % cfn)
